@@ -1,5 +1,5 @@
 import JadeModel.Props.C08
-import JadeModel.Proofs.ResultsFault
+import JadeModel.Proofs.ResultsFaultOnce
 
 /-!
 # C08 under injected I/O errors and kills (the part of C11 that concerns result files)
@@ -15,8 +15,9 @@ statement order inside `_move_results` (`Gen.moveOrder`: copy before removal) is
 source on every run: with the removal before the copy `C08_fault_shape` and the lemmas below it do
 not build.
 
-What survives (at-least-once): no row is ever lost, whatever failed or died, and no row is ever in
-flight (removed from its node file but not yet in the consolidated file).  What does not survive, on the
+What survives (at-least-once): no row is ever lost, whatever failed or died, no row is ever in
+flight (removed from its node file but not yet in the consolidated file), and no row is ever reported
+twice (an aborted or killed round returns nothing).  What does not survive, on the
 unchanged code: a death between copy and removal, or a failed `os.remove`, leaves the rows of that
 one node file in both files, and a later round collects them again; an aborted round returns
 nothing, so the rows it had already moved are reported to no round (`demoAbort`).
@@ -104,6 +105,46 @@ theorem C08_injected_error_propagates (x : XState ρ (List ρ)) (p : Pid) (f : F
     cases a <;> cases f <;> simp at hy <;> subst hy <;>
       simp [raiseOut_eq, State.setColl, State.setNodeLock, XState.disarm, consRows, opened_rows]
 
+/-- … and a failed read of the node file (`_get_results`): the lock just taken is released again, nothing
+    on disk has changed, the round raises. -/
+theorem C08_failed_read_propagates (x : XState ρ (List ρ)) (p : Pid) (b : BatchId) (rest : List BatchId)
+    (acc : List ρ) (hc : x.base.coll p = .collecting (b :: rest) acc) (hl : x.base.nodeLock b = none) :
+    (lockFailRead x p).base.coll p = .idle ∧ (lockFailRead x p).base.consLock = none ∧
+    (lockFailRead x p).base.nodeLock b = none ∧
+    (lockFailRead x p).base.returned = x.base.returned ++ [(p, .raised)] ∧
+    (lockFailRead x p).base.node = x.base.node ∧ (lockFailRead x p).base.cons = x.base.cons ∧
+    (lockFailRead x p).armed p = none := by
+  rw [lockFailRead_eq]
+  simp [hc, hl, raiseOut_eq, State.setColl, State.setNodeLock, XState.disarm]
+
+/-- **No row is ever reported twice, whatever failed or died**: the rows returned by all finished
+    `process_results()` calls, the rows the round in progress (alive or dead) has taken out of node files and
+    not yet returned, and the rows still in node files are distinct occurrences of rows written by runners.
+    (An aborted or killed round drops its claim: those rows are then reported to no round.) -/
+theorem C08_reported_at_most_once_under_faults [DecidableEq ρ] (ops : List (OpX ρ)) (created : Bool) (a : ρ) :
+    let s := (reachX ops created).base
+    (returnedRows s).count a + (active s).claimed.count a + (nodeRows s).count a ≤ (writtenRows s).count a ∧
+    (returnedRows s).count a ≤ (writtenRows s).count a := by
+  intro s
+  have h : Once s := once_runX _ (once_init created) ops
+  have := h.atMost a
+  exact ⟨this, by omega⟩
+
+/-- Also with dead processes and stale markers around, at most one collection is in progress at any time
+    (alive or dead), and it is the holder of the consolidated lock: a dead collector blocks every other
+    round until its marker is broken, and breaking it ends its round for good. -/
+theorem C08_one_collection_under_faults [DecidableEq ρ] (ops : List (OpX ρ)) (created : Bool) :
+    let s := (reachX ops created).base
+    (∀ p : Pid, s.consLock = some p ↔ s.coll p ≠ .idle) ∧
+    (∀ p q : Pid, s.coll p ≠ .idle → s.coll q ≠ .idle → p = q) := by
+  intro s
+  have h : Once s := once_runX _ (once_init created) ops
+  refine ⟨h.cons_lock, ?_⟩
+  intro p q hp hq
+  apply Classical.byContradiction
+  intro hne
+  exact hq (h.others_idle hp (fun e : q = p => hne e.symm))
+
 /-- A dead process does nothing: every operation of a killed collector is a stutter. -/
 theorem C08_dead_does_nothing (x : XState ρ (List ρ)) (op : Op ρ) (p : Pid) (hp : op.pid = some p)
     (hd : p ∈ x.dead) : stepX (absOpsX ρ) x (.base op) = x :=
@@ -138,6 +179,8 @@ def demoKill : List (OpX Nat) :=
 
 example : (reachX (demoKill.take 7)).base.consLock = some 0 ∧ (reachX (demoKill.take 7)).base.nodeLock 1 = some 0 ∧
     (reachX (demoKill.take 7)).base.node 1 = some [10] ∧ (reachX (demoKill.take 7)).base.cons = some [10] := by decide
+/-- … j1 is in the consolidated file twice, but reported once -/
+example : returnedRows (reachX demoKill).base = [10] ∧ writtenRows (reachX demoKill).base = [10] := by decide
 example : (reachX demoKill).base.cons = some [10, 10] ∧ (reachX demoKill).base.dir = [] ∧
     (reachX demoKill).base.returned = [(1, .rows [10])] ∧ (reachX demoKill).dead = [0] ∧
     (reachX demoKill).base.consLock = none := by decide
